@@ -7,64 +7,64 @@ props = [json.loads(l) for l in open(os.path.join(VERIF, 'properties.jsonl'))]
 # property -> (technique, level text, level note, design ref)
 CHECKS = {
  "C08": ("runtime monitoring: reachability-oracle monitors on walker output + offline trace checker (stack automaton) over the recorded depth_first_search event log, on generated graphs x 9 encodings x adaptors",
-         "Exploration. Every walker sequence and every DFS event stream produced by the real code on ~10^5 generated graphs per quick run is judged by an independent oracle (closure / BFS hop distances / trace automaton); a violation needs one offending execution, silence means the oracle agreed on all executions observed.",
-         "Oracles in harness/src/oracle.rs and props/c08.rs are trusted; graphs are small (n<=13); the Prune-on-edge-event clause is checked only in the form every reading of the documentation supports.", "DESIGN.md 5/C08"),
+         "Exploration. Every walker sequence and every DFS event stream produced by the real code on ~1.6*10^6 generated graphs per quick run is judged by an independent oracle (closure / BFS hop distances / trace automaton); a violation needs one offending execution, silence means the oracle agreed on all executions observed.",
+         "Oracles in harness/src/oracle.rs and props/c08.rs are trusted; graphs are small (n<=13, a 1/150 share up to 70 nodes); the Prune-on-edge-event clause is checked only in the form every reading of the documentation supports.", "DESIGN.md 5/C08"),
  "C09": ("runtime monitoring: definition-level oracle (boolean reachability closure) over results of the real algorithms on generated graphs x all instantiable encodings, incl. reused DfsSpace across calls and graphs",
-         "Exploration. SCC partitions + order, component counts, path queries for all pairs, cycle predicates, bipartiteness, toposort (Ok/Err, order, witness) and condensation are compared with a closure-based oracle on ~2*10^5 generated multigraphs per quick run.",
-         "Closure/BFS oracles trusted (cross-checked against each other every case); n<=14.", "DESIGN.md 5/C09"),
+         "Exploration. SCC partitions + order, component counts, path queries for all pairs, cycle predicates, bipartiteness, toposort (Ok/Err, order, witness) and condensation are compared with a closure-based oracle on ~1.6*10^6 generated multigraphs per quick run.",
+         "Closure/BFS oracles trusted (cross-checked against each other every case); n<=14, a 1/150 share up to 70 nodes.", "DESIGN.md 5/C09"),
  "C10": ("runtime monitoring: exact-distance oracle (reference Bellman-Ford), path certificate checker and k-smallest-walk multiset fixpoint over results of the real algorithms on generated weighted multigraphs x 9 encodings x 4 cost types",
-         "Exploration. dijkstra maps (with/without goal), astar results under zero/consistent/random admissible-inconsistent heuristics and goal sets, and k_shortest_path maps are compared for equality with exact oracles on ~3*10^5 generated inputs per quick run.",
+         "Exploration. dijkstra maps (with/without goal), astar results under zero/consistent/random admissible-inconsistent heuristics and goal sets, and k_shortest_path maps are compared for equality with exact oracles on ~2.5*10^6 generated inputs per quick run.",
          "Oracles trusted; integer-valued costs so float sums are exact; n<=12, k<=5.", "DESIGN.md 5/C10"),
  "C11": ("runtime monitoring: reference Bellman-Ford / Floyd-Warshall over Option<i64> plus certificate checkers (tight predecessor tree, closed negative walk, prev-path cost) over results of the real algorithms on signed-weight workloads incl. adversarial insertion orders",
-         "Exploration. Err/Ok verdicts, every distance, every predecessor and every returned cycle are checked on ~2.5*10^5 generated signed-weight graphs per quick run, including negative edges combined with unreachable nodes, negative self-loops and the convex complete DAG that drives label-correcting algorithms to exponential re-relaxation.",
+         "Exploration. Err/Ok verdicts, every distance, every predecessor and every returned cycle are checked on ~1.9*10^6 generated signed-weight graphs per quick run, including negative edges combined with unreachable nodes, negative self-loops and the convex complete DAG that drives label-correcting algorithms to exponential re-relaxation.",
          "Reference implementations trusted; |w| small so no sum overflows (overflow is outside the statement); n<=11.", "DESIGN.md 5/C11"),
  "C12": ("runtime monitoring: independent sort-based Kruskal (own union-find) + structural certificate checker over the real element stream (node prefix, membership multiset, acyclicity, edge count n-c, total weight), Kruskal on 9 encodings, Prim on 8, from_elements round trip",
-         "Exploration. Every element stream is judged for all clauses of the statement on ~4*10^5 generated weighted multigraphs per quick run (ties, parallel edges of different weight, disconnected inputs, vacancies).",
+         "Exploration. Every element stream is judged for all clauses of the statement on ~2.5*10^6 generated weighted multigraphs per quick run (ties, NaN weights on self-loops, parallel edges of different weight, disconnected inputs, vacancies).",
          "Reference Kruskal trusted; integer-valued weights.", "DESIGN.md 5/C12"),
- "C15": ("runtime monitoring: validity/accessor-consistency checker + bitmask-DP optimum for matchings; feasibility, conservation and min-cut certificate (residual reachability of the returned flow) for ford_fulkerson, on blossom-prone and cancellation-forcing workload families",
-         "Exploration. ~2*10^5 generated inputs per quick run; a matching must be valid and of DP-optimal size, a flow must come with a cut of equal capacity - certificates, so no second flow implementation is trusted.",
-         "DP oracle trusted (n<=14); capacities small integers; the documented known finding (directed storage) is matched by exact signature only.", "DESIGN.md 5/C15"),
+ "C15": ("runtime monitoring: validity/accessor-consistency checker + bitmask-DP optimum (n<=16) and an independent Edmonds-blossom optimum (n<=70, cross-checked against the DP on every small case) for matchings; feasibility, conservation and min-cut certificate (residual reachability of the returned flow) for ford_fulkerson, on blossom-prone and cancellation-forcing workload families",
+         "Exploration. ~2.5*10^6 generated inputs per quick run (incl. capacities at the maximum of the capacity type); a matching must be valid and of optimal size, a flow must come with a cut of equal capacity - certificates, so no second flow implementation is trusted.",
+         "DP / blossom oracles trusted; capacities small integers; the documented known finding (directed storage) is matched by exact signature only.", "DESIGN.md 5/C15"),
  "C16": ("runtime monitoring: node-deletion oracles (dominance and cut vertices by definition) over results of the real algorithms on generated graphs x encodings, every root, all four accessors",
-         "Exploration. ~4*10^5 generated graphs per quick run; dominator sets, immediate dominators, strict sets, dominated-by sets and articulation-point sets are compared for equality with definition-level oracles.",
-         "Deletion oracles trusted; n<=13.", "DESIGN.md 5/C16"),
- "C13": ("runtime monitoring: exhaustive-search oracle (all injective maps preserving adjacency, non-adjacency and predicates) compared with the booleans and the full mapping set produced by the real VF2 code on generated near-isomorphic pairs; relabeling-invariance monitor",
-         "Exploration. ~8*10^4 generated pairs per quick run (relabelled copies, one-edge edits, 2-switches, induced subgraphs, tiny patterns), five functions, three predicate regimes; the iterator is consumed through take(|S|+1) so non-termination on a pattern is decided on a logical count.",
-         "Exhaustive search trusted; n0<=6, n1<=7.", "DESIGN.md 5/C13"),
+         "Exploration. ~2.5*10^6 generated graphs per quick run; dominator sets, immediate dominators, strict sets, dominated-by sets and articulation-point sets are compared for equality with definition-level oracles.",
+         "Deletion oracles trusted; n<=13, a 1/150 share up to 40 nodes.", "DESIGN.md 5/C16"),
+ "C13": ("runtime monitoring: exhaustive-search oracle (all injective maps preserving adjacency, non-adjacency and predicates) compared with the booleans and the full mapping set produced by the real VF2 code on generated near-isomorphic pairs; relabeling-invariance monitor; patterns of 12-24 nodes that are induced subgraphs of the target by construction, every yielded mapping validated",
+         "Exploration. ~8*10^5 generated pairs per quick run (relabelled copies, one-edge edits, 2-switches, induced subgraphs, tiny patterns), five functions, three predicate regimes; the iterator is consumed through take(|S|+1) so non-termination on a pattern is decided on a logical count.",
+         "Exhaustive search trusted; n0<=6, n1<=7 (by-construction class: positives only).", "DESIGN.md 5/C13"),
  "C20": ("runtime monitoring: per-algorithm specification oracles (subset enumeration for maximal cliques and the Steiner optimum, properness/colour-range checker, acyclicity of the remainder, closure-derived reduction/closure, DFS path enumeration, rank-vector invariants and relabeling equivariance) over results of the real code",
-         "Exploration. ~8*10^4 cases x 6 inputs per quick run, every algorithm on its documented domain and on every encoding that satisfies its bounds.",
+         "Exploration. ~6.4*10^5 cases x 6 inputs per quick run, every algorithm on its documented domain and on every encoding that satisfies its bounds.",
          "Oracles trusted; sizes n<=11 (cliques), n<=9 (Steiner optimum), tolerance 1e-9 only for page_rank.", "DESIGN.md 5/C20"),
- "C01": ("runtime monitoring: reference-model monitor (compact multigraph with unique weight ids) over generated operation histories on the real Graph, full observation sweep of every public query after each mutation, hook site counters; ASan + Miri legs for the unsafe index_twice paths",
-         "Exploration. ~1.3*10^4 histories / 2.7*10^6 operations per quick run in debug and release; each return value and every query (ordered where the documentation fixes the order) is compared with the model; implementation-defined numbering is checked against its constraint and adopted by unique ids.",
+ "C01": ("runtime monitoring: reference-model monitor (compact multigraph with unique weight ids) over generated operation histories on the real Graph, full observation sweep of every public query after each mutation, iterator-protocol monitor (size_hint/len/count/last/nth/fold/next_back of every iterator handed out), hook site counters; ASan + Miri legs for the unsafe index_twice paths",
+         "Exploration. ~1.6*10^4 histories / 3*10^6 operations per quick run in debug and release (clone_from into populated destinations included); each return value and every query (ordered where the documentation fixes the order) is compared with the model; implementation-defined numbering is checked against its constraint and adopted by unique ids.",
          "Model in harness/src/dsmodel.rs + props/c01.rs trusted; u32/usize index limits unreachable (u8 is driven to its limit).", "DESIGN.md 5/C01"),
  "C02": ("runtime monitoring: index-stable reference-model monitor over generated histories on the real StableGraph, observation sweep, raw free-list invariant probe through the verif-hooks exporter, boundary probes that trigger the library's own debug self-check, equal volume in debug and release; ASan + Miri legs",
-         "Exploration. ~1.3*10^4 histories per quick run with frequent failing try_* calls and vacancies; 'unchanged after failure' is decided by the full sweep + raw-state comparison after every failing call.",
+         "Exploration. ~2.5*10^4 histories per quick run with frequent failing try_* calls and vacancies; 'unchanged after failure' is decided by the full sweep + raw-state comparison after every failing call.",
          "Model trusted; which vacancy is reused is not predicted (checked: not live, then adopted).", "DESIGN.md 5/C02"),
  "C05": ("runtime monitoring: set / list reference models over generated insertion histories on the real Csr and adj::List, rows driven across the 32-entry binary-search cutoff (both branches confirmed by hook counters), from_sorted_edges accept/reject oracle, every returned EdgeIndex re-resolved; ASan + Miri legs",
-         "Exploration. ~2.5*10^4 histories per quick run; every query incl. raw row/column arrays compared with the model after each sweep point.",
+         "Exploration. ~1.9*10^5 histories per quick run; every query incl. raw row/column arrays compared with the model after each sweep point.",
          "Models trusted; index-width overflow of these two types is undocumented and not driven; Build::update_edge on List is exercised in range only ('might panic').", "DESIGN.md 5/C05"),
  "C19": ("runtime monitoring: partition-model monitor (label vector) over generated call histories on the real UnionFind incl. out-of-range arguments and documented panics, representative-stability monitor between unions, raw parent/rank invariant probe; ASan + Miri legs for the get_unchecked paths",
-         "Exploration. ~4.8*10^4 histories per quick run over four index widths (u8 up to all 256 elements).",
+         "Exploration. ~4.8*10^5 histories per quick run over four index widths (u8 up to all 256 elements).",
          "Model trusted.", "DESIGN.md 5/C19"),
  "C03": ("runtime monitoring: simple-graph reference-model monitor over generated operation histories on the real GraphMap (3 node-value types x 2 edge types x 3 hashers incl. an all-collide hasher), full sweep of every query for every key and ordered pair after every operation, indexing-bijection and conversion monitors",
-         "Exploration. ~1.9*10^4 histories per quick run; return values and the complete observable state are compared with the model after each operation.",
+         "Exploration. ~4.8*10^4 histories per quick run; return values, the complete observable state and the iterator protocol of every iterator are compared with the model after each operation; into_graph is probed at the u8 index limit.",
          "Model trusted; key universe of 12 values per type.", "DESIGN.md 5/C03"),
  "C04": ("runtime monitoring: simple-graph reference-model monitor keyed by node id over generated histories on the real MatrixGraph (growth runs across capacity steps, removal / id reuse), plus a storage probe through the verif-hooks exporter (occupied cells == model edges, nb_edges, removed ids); ASan + Miri legs for the unsafe row relocation",
-         "Exploration. ~2.2*10^4 histories per quick run; both row-move branches and both id-allocation branches are confirmed reached by hook counters.",
+         "Exploration. ~8*10^4 histories per quick run; both row-move branches and both id-allocation branches are confirmed reached by hook counters.",
          "Model trusted; mutations only between existing nodes (the property's domain).", "DESIGN.md 5/C04"),
  "C06": ("runtime monitoring: visit-trait consistency checker (one expected edge list per view, computed by the harness) applied to every graph type in hole-ridden states and to Reversed / UndirectedAdaptor / NodeFiltered / EdgeFiltered / Frozen and depth-2 stackings",
-         "Exploration. ~1.3*10^5 generated states per quick run x up to 20 views each; every trait method is compared with the expected view for every node and ordered pair.",
+         "Exploration. ~4.8*10^5 generated states per quick run x up to 20 views each; every trait method (and the iterator protocol of every trait iterator) is compared with the expected view for every node and ordered pair.",
          "Checker trusted; UndirectedAdaptor self-loops accepted once or twice; two known-finding signatures (UndirectedAdaptor::edges orientation) are matched exactly.", "DESIGN.md 5/C06"),
  "C14": ("runtime monitoring: index-free DAG reference model (unique weights) over generated histories on the real Acyclic<DiGraph> / Acyclic<StableDiGraph>, invariant monitor after every operation (acyclicity, order lists exactly the live nodes, edges forward, range/position consistency, raw order maps via the verif-hooks exporter), is_valid_edge prediction monitor",
-         "Exploration. ~8*10^4 histories per quick run with frequent rejected insertions, removals of non-last nodes and removals of absent nodes.",
+         "Exploration. ~3.2*10^5 histories per quick run with frequent rejected insertions, conversions from graphs with a removal history, removals of non-last nodes and removals of absent nodes.",
          "Model trusted; insertions only between live nodes (absent-node insertion is undocumented).", "DESIGN.md 5/C14"),
  "C07": ("runtime monitoring: differential monitor - one generated abstract graph is built in every feasible encoding (9: narrow/wide index types, shuffled histories, vacancies, removed ids, all six graph types) and every algorithm/walker that type-checks runs on each, judged by the same oracle / certificate checker as in C08-C16/C20; a panic, overrun or hang on one encoding is a violation",
-         "Exploration. ~2.2*10^4 abstract graphs x up to 9 encodings x ~30 algorithms per quick run; the (algorithm group x encoding) cells hit are counted in the evidence.",
+         "Exploration. ~1.3*10^5 abstract graphs x up to 9 encodings x ~30 algorithms per quick run; the (algorithm group x encoding) cells hit are counted in the evidence.",
          "Oracles trusted; n<=10; two known-finding signatures (page_rank on sparse indices, maximum_matching on directed storage) are matched exactly.", "DESIGN.md 5/C07"),
  "C17": ("runtime monitoring: round-trip monitor (model sweep of the deserialised value) over graphs reached by mutation histories through serde_json and bincode, and hostile-input monitor (structural JSON mutations, byte-level bincode mutations, over-size u8 streams): every accepted value is swept for self-consistency incl. raw free-list invariants and then exercised with further operations; a panic during deserialisation is a violation; ASan leg",
-         "Exploration. ~8*10^4 streams per quick run.",
+         "Exploration. ~3.2*10^5 streams per quick run; a process abort (allocation failure from a hostile length prefix) is localised, confirmed and attributed through its backtrace.",
          "Model/sweeps trusted; allocation sizes bounded so that an allocation failure cannot occur; one known-finding signature (index-type-filling graph rejected) is matched exactly.", "DESIGN.md 5/C17"),
- "C18": ("runtime monitoring: independent byte-level graph6 encoder/decoder (written from the format text) compared with the real encoder/decoder on five graph types; DOT tokenizer + parser over the real Dot output compared statement by statement with the graph, adversarial weight strings, all 160 Config combinations enumerated by case index",
-         "Exploration. ~4.8*10^4 cases per quick run; graph6 for n in 0..=70 (thorough: up to ~320 nodes), the 258047-node end of the range is out of reach and stated as such.",
+ "C18": ("runtime monitoring: independent byte-level graph6 encoder/decoder (written from the format text) compared with the real encoder/decoder on five graph types; DOT tokenizer + parser over the real Dot output compared statement by statement with the graph, adversarial weight strings (also written piecewise through write_char / short write_str pieces), all 160 Config combinations enumerated by case index",
+         "Exploration. ~1.9*10^5 cases per quick run; graph6 for n in 0..=70 (thorough: up to ~320 nodes), the 258047-node end of the range is out of reach and stated as such.",
          "The harness' graph6 codec and DOT parser are trusted; attribute getters are not exercised (caller's responsibility).", "DESIGN.md 5/C18"),
 }
 REASON_PENDING = "check under construction in this round (runtime monitoring applies; see DESIGN.md section 5)"
